@@ -33,10 +33,14 @@ pub fn index_expr(f: &[&str]) -> String {
   if f[4] == "-" { format!("m[{}]", sel_src(f[3])) } else { format!("m[{},{}]", sel_src(f[3]), sel_src(f[4])) }
 }
 
+pub fn source(case: &str) -> String {
+  let f: Vec<&str> = case.split('\t').collect();
+  format!("{}{}", operand_def("m", f[1], f[2], false), index_expr(&f))
+}
+
 pub fn exec(case: &str) -> String {
   let f: Vec<&str> = case.split('\t').collect();
-  let def = operand_def("m", f[1], f[2], false);
-  let src = format!("{}{}", def, index_expr(&f));
+  let src = source(case);
   let tree = match parse_code(&src) { Ok(t) => t, Err(e) => return format!("harness:{}:{}", e, hexs(&src)) };
   let mut intrp = Interpreter::new(0);
   let r = std::panic::catch_unwind(std::panic::AssertUnwindSafe(|| intrp.interpret(&tree)));
